@@ -279,6 +279,9 @@ type OCSPOpts struct {
 	Signer     *CA               // key that signs
 	SignerCert *x509.Certificate // responder certificate (== Issuer for direct signing)
 	Embed      bool              // embed SignerCert
+	// EmbedCert: embed this certificate instead, while the responder id is still derived from SignerCert (a response whose
+	// signed responder id names somebody else than the certificate that verifies its signature)
+	EmbedCert *x509.Certificate
 	ThisUpdate time.Time
 	NextUpdate time.Time
 }
@@ -291,6 +294,9 @@ func OCSPResponse(o OCSPOpts) []byte {
 	}
 	if o.Embed {
 		tmpl.Certificate = o.SignerCert
+	}
+	if o.EmbedCert != nil {
+		tmpl.Certificate = o.EmbedCert
 	}
 	b, err := ocsp.CreateResponse(o.Issuer, o.SignerCert, tmpl, o.Signer.Key)
 	if err != nil {
